@@ -141,13 +141,15 @@ Fixpoint c06_walk (k : option nat) (inflight : list N) (incb : list N) (h : hist
    (retries waiting for their delay aside), and with nothing in flight also every serial one *)
 Definition is_final_failure (evs : list scev) (rt : retr) : bool :=
   attempt_failed evs && match rt with Some (_, l) => l =? 0 | None => true end.
-(* is the next record — bracket events emitted by the loop turns themselves aside — another loop turn? *)
+(* does another loop turn follow before the runner is quiescent again (= before the harness applies its next stimulus)?
+   Attempts that completed within one poll are collected one per turn, and between two such turns the other attempts
+   are polled too (their events and callback entries lie in between): the turns of one poll form ONE refill. *)
 Fixpoint next_is_top (h : hist) : bool :=
   match h with
   | (HTop _, _) :: _ => true
-  | (HEv (EvFeatS _), _) :: t | (HEv (EvRuleS _ _), _) :: t | (HEv (EvFeatF _), _) :: t | (HEv (EvRuleF _ _), _) :: t =>
-    next_is_top t
-  | _ => false
+  | (HStimP, _) :: _ | (HStimG _, _) :: _ | (HStimT _, _) :: _ | (HEnd, _) :: _ => false
+  | _ :: t => next_is_top t
+  | [] => false
   end.
 Definition retries_at_once (items : list item) (s : N) : bool :=
   existsb (fun sc => (ss_id sc =? s) && match ss_retry sc with Some (_, None) => true | _ => false end)
@@ -173,7 +175,7 @@ Fixpoint fills_walk (k : option nat) (items : list item) (seen : hist) (inflight
                  (if again then s :: retrying else retrying) pending
                  (tripped || (ff && is_final_failure evs rt)) ff t
     | HTop b =>
-      (* judged at the LAST of a run of consecutive loop turns (attempts that completed within one poll are
+      (* judged at the LAST loop turn before the runner is quiescent (attempts that completed within one poll are
          collected one per turn, each turn refilling one slot): with `pending` attempts dispatched but not yet
          Started, a free slot means that no concurrent scenario was ready. A ready SERIAL scenario may have to wait
          (C07 governs those), and when a serial scenario has been ingested a turn may consist of it alone. *)
